@@ -446,6 +446,7 @@ func main() {
 		"non-string inputs of string-only transforms, undocumented format/pair combinations) are exercised for totality, purity and determinism only. " +
 		"Cases run in child processes so that a Go fatal error becomes a violation with the exact case instead of ending the run."
 	c.Rule += " " + "Composer templates copy a tags map, some with keepMapValues: merge options stay with their template."
+	c.Rule += " " + "Composer templates whose kind is not served while a name is generated."
 	c.Assumptions = []string{
 		"objects reaching the patch code were decoded by the Kubernetes JSON decoder (integers are int64, other numbers float64, no NaN/Inf)",
 		"field names contain no brackets or quotes; numeric-looking names are only addressed in dotted form",
